@@ -287,7 +287,8 @@ def streams(tier, avoid):
     big = tier == "thorough"
     mn = 12 if big else 8
     o1 = G.Opts(max_nodes=mn, thermal=True, zero_source=True, avoid=avoid)
-    o2 = G.Opts(max_nodes=mn, thermal=True, zero_source=True, phases=True, avoid=avoid)
+    o2 = G.Opts(max_nodes=mn, thermal=True, zero_source=True, phases=True, avoid=avoid,
+                odd_phase_conf=True, drop_sys_phases=True)
     cases = [{"kind": k, "key": key, "which": w} for k in S.KINDS for key in S.LIMIT_KEYS
              for w in ("max", "min")]
     return [
